@@ -110,7 +110,9 @@ func (fr *Frame) doCallInner(st *State, instr ssa.Value, c *ssa.CallCommon, pos 
 	key, fn := fr.calleeKey(c)
 	sig := c.Signature()
 	if key != "" {
+		fr.atCallArgs = args
 		fr.atCall(st, key, c, pos)
+		fr.atCallArgs = nil
 	}
 
 	// closure call: resolve statically if the value is a known closure
@@ -180,6 +182,9 @@ func (fr *Frame) atCall(st *State, key string, c *ssa.CallCommon, pos token.Pos)
 		}
 		for k, cl := range cls {
 			env := &Env{fc: fc, fr: fr, st: st, old: fr.top().entry, vars: map[string]Term{}, pkgName: fr.fn.Pkg.Pkg.Name(), at: fr.curBlock}
+			for i, a := range fr.atCallArgs {
+				env.vars[fmt.Sprintf("$%d", i)] = a // the call's arguments (receiver first)
+			}
 			t, err := fc.evalGoal(env, cl)
 			if err != nil {
 				fc.unsupp(pos, "atcall %s: %v", name, err)
@@ -363,6 +368,13 @@ func (fr *Frame) contractCall(st *State, key string, spec *FuncSpec, fn *ssa.Fun
 		name := fmt.Sprintf("call.%s@%d.pre%d", shortKey(key), ord, k+1)
 		if r.Label != "" {
 			name = fmt.Sprintf("call.%s@%d.pre.%s", shortKey(key), ord, r.Label)
+		}
+		if top := fr.top(); top.spec != nil && top.spec.Flags["assumepre"] != "" {
+			// the caller's contract declares that callee preconditions follow from a representation
+			// invariant that is assumed here (and exercised by the bounded tier)
+			fc.assume(st, t)
+			fc.w.assumed["in "+funcKey(top.fn)+" the preconditions of callees are assumed ("+top.spec.Flags["assumepre"]+")"] = true
+			continue
 		}
 		fc.addObligation(st, "precondition", fr.oblName(name), t, pos, r.Src)
 	}
